@@ -124,6 +124,15 @@ def gen_c12(rng, n_scripts, per_script):
                 lines.append("enc " + record_text(r))
                 # and the round trip inside the implementation: decode(encode r) re-encodes to the same bytes
                 lines.append("rt " + record_text(r))
+                small_fields = (r[0] in ("V", "C", "T", "P")
+                                or (r[0] == "A" and len(token_bytes(r[2])) <= 16)
+                                or (r[0] == "S" and (r[5] is None or len(token_bytes(r[5])) <= 16)))
+                if small_fields and rng.chance(1, 2):
+                    # the same record through a sink that accepts only 16 bytes per call: no single field
+                    # is cut short (the checksum writer of the `codeq` dependency hashes a field again when
+                    # its write is cut short - outside this crate and never the case for the Vec the
+                    # store encodes into), but the record as a whole is
+                    lines.append("encw 16 " + record_text(r))
                 continue
             if r[0] == "A" and len(token_bytes(r[2])) > 600:
                 r = ("A", r[1], rnd_bytes_token(rng, [0, 1, 7, 300]))
@@ -206,7 +215,7 @@ class HistGen:
             ms = r.choice(["-", "-", "-", 0, 64, 200, 1000])
             parts += [f"mr={mr}", f"ms={ms}"]
             # read_buffer_size: the model has no such notion, recovery must not depend on it
-            parts += [f"rb={r.choice(['-', '-', 1, 2, 3, 5, 7, 16, 64, 4096])}"]
+            parts += [f"rb={r.choice(['-', '-', 0, 1, 2, 3, 5, 7, 16, 64, 4096])}"]
         if self.o["small_cache"]:
             ci = r.choice([0, 1, 2, 3, "-"])
             cc = r.choice([0, 1, 10, 400, "-"])
@@ -316,7 +325,13 @@ class HistGen:
     # --- rejected / boundary operations ------------------------------------
     def op_rejected(self):
         m, r = self.m, self.r
-        k = r.below(7)
+        k = r.below(8)
+        if k == 7 and m.last is not None:
+            # a newer term pointing back into the log: greater as a log id, but not the next index
+            back = r.below(min(3, m.last[1] + 1))
+            c = (m.last[0] + 1 + r.below(2), m.last[1] - back)
+            self.count("rej-append-newer-term-old-index")
+            return f"app {c[0]},{c[1]},{self.payload()}"
         if k == 6 and self.o["batch"]:
             # a batch whose first entries are accepted and whose last entry is
             # rejected: the accepted prefix stays applied
